@@ -186,10 +186,14 @@ class RedisCacheStore(CacheStore):
         self._redis = redis.Redis(host=host, port=port, db=db)
 
     def get(self, key):
-        return self._redis.get(key)
+        # The values (embeddings) are stored as JSON, as in the filesystem store
+        value = self._redis.get(key)
+        if value is None:
+            return None
+        return json.loads(value)
 
     def set(self, key, value):
-        self._redis.set(key, value)
+        self._redis.set(key, json.dumps(value))
 
     def clear(self):
         self._redis.flushall()
